@@ -106,6 +106,12 @@ def c01(ck):
                   "built 6 ways (factory, life cycle, fill, SML parser, HSMS decoder, size boundaries 255|256 and 65535|65536), "
                   "decoded from an exact-capacity and a poisoned-tail buffer and re-encoded; non-trivial = has an item; "
                   "distinct by (message projection, bytes)")
+    if ck.violations:
+        return
+    # any size: real items of every format at every length-byte boundary, alone and behind each other, decoded from a
+    # buffer that is overwritten afterwards (run-length summaries)
+    ck.trace("big", "big", [], "TraceCodec", "TraceCodec.cfg", ["InvBig", "InvSeq"],
+             nontrivial=lambda e: e.get("n", 0) >= 31 or e.get("ev") == "bigseq")
 
 
 @check("C02", design_ref="4 C02, App. H",
@@ -267,6 +273,14 @@ def c09(ck):
     ck.trace("fill", "fill", ["-n", q(ck, 1500, 12000)], "TraceItems", "TraceItems.cfg", ["InvC09"],
              nontrivial=lambda e: len(e.get("tmpl", {}).get("vars", [])) > 0,
              key=lambda e: json.dumps([e.get("tmpl", {}).get("abs"), e.get("sigma")], sort_keys=True))
+    if ck.violations:
+        return
+    # through an ellipsis: repeat counts and values for the generated names, in one call and in two
+    ck.rule.append("fillell: random templates with ellipses (half of them with names of the generated shape, v next to v[0]) x counts 0..3 x "
+                   "values for the names after expansion, once and counts-then-values, against Subst(Ellipsis!Spec(t, counts), values)")
+    ck.trace("fillell", "fillell", ["-n", q(ck, 600, 6000)], "TraceItems", "TraceItems.cfg", ["InvC09"],
+             nontrivial=lambda e: len(e.get("cnt", [])) > 0,
+             key=lambda e: json.dumps([e.get("tmpl", {}).get("abs"), e.get("cnt"), e.get("sigma")], sort_keys=True))
     ck.assumptions.append(ITEMS_NOTE)
 
 
@@ -406,7 +420,7 @@ def _sml_enum(ck, specs, props, agree=("InvAgreeParse",)):
         total += len(evs)
         if ck.violations:
             break
-    ck.extra["sml_co_enumeration"] = dict(scopes=specs, texts=total, vocabulary=34, small_vocabulary=12)
+    ck.extra["sml_co_enumeration"] = dict(scopes=specs, texts=total, vocabulary=37, small_vocabulary=12)
     return total
 
 
@@ -441,7 +455,7 @@ def c05(ck):
     if ck.violations:
         return
     # every sequence of words in item position: type word, size, values of every class, closing
-    ck.rule.append("co-enumeration: every sequence of <= 2 (quick) / 3 words of a 34-word vocabulary and <= 3 / 4 words of a 12-word one "
+    ck.rule.append("co-enumeration: every sequence of <= 2 (quick) / 3 words of a 37-word vocabulary and <= 3 / 4 words of a 12-word one "
                    "between '<' and '>' of an item")
     _sml_enum(ck, q(ck, ["item:full:2,item:small:3"], ["item:full:3", "item:small:4"]), ["InvC05"])
     ck.assumptions.append(SML_NOTE)
@@ -469,7 +483,7 @@ def c06(ck):
     if ck.violations:
         return
     # co-enumeration: every short word sequence in five contexts (behind a header, in a list, in an item, as header, behind a message)
-    ck.rule.append("co-enumeration: every sequence of <= 2 (quick) / 3 words of a 34-word vocabulary in 5 contexts, and <= 3 / 4 words of a "
+    ck.rule.append("co-enumeration: every sequence of <= 2 (quick) / 3 words of a 37-word vocabulary in 5 contexts, and <= 3 / 4 words of a "
                    "12-word one in list position")
     _sml_enum(ck, q(ck, ["top:full:2,list:full:2,item:full:2,head:full:2,two:full:2,list:small:3"],
                     ["top:full:3", "list:full:3", "head:full:3", "two:full:3", "list:small:4"]), ["InvC06"])
